@@ -76,7 +76,7 @@ def parse_edit(line, unit, lineno):
         elif c:
             e["count"] = int(c[1:])
         return e
-    m = re.match(r"(head|tail):\s*(.*)$", t, re.S)
+    m = re.match(r"(head|tail|pre_tail):\s*(.*)$", t, re.S)
     if m:
         return {"op": m.group(1), "text": m.group(2)}
     if t == "sig adds-return":
@@ -90,9 +90,18 @@ def parse_template(text, unit):
     lines = text.split("\n")
     i = 0
     buf = []
+    stub_of = None
     while i < len(lines):
         ln = lines[i]
         s = ln.strip()
+        if s.startswith("//@stubs-begin"):
+            stub_of = s.split(None, 1)[1]
+            i += 1
+            continue
+        if s == "//@stubs-end":
+            stub_of = None
+            i += 1
+            continue
         if s.startswith("//@fn ") or s.startswith("//@item "):
             if buf:
                 segs.append(("text", "\n".join(buf)))
@@ -112,7 +121,7 @@ def parse_template(text, unit):
                     sel.append(p)
                 else:
                     sel[-1] += "::" + p
-            d = {"file": sel[0], "path": sel[1:], "line": i + 1, "tags": tags}
+            d = {"file": sel[0], "path": sel[1:], "line": i + 1, "tags": tags, "stub_of": stub_of}
             i += 1
             if kind == "item":
                 segs.append(("item", d))
@@ -165,6 +174,7 @@ class Composed:
         self.text = ""
         self.fns = []  # dicts: id, name, file, path, tags, line_start, line_end, body_start, log, nloops, src
         self.items = []
+        self.stubs = []
         self.log = []
 
 
@@ -173,6 +183,8 @@ def compose(template_text, unit, canary=None):
     segs = parse_template(template_text, unit)
     reqs = []
     for k, (kind, d) in enumerate(segs):
+        if kind == "fn" and d.get("stub_of"):
+            continue
         if kind in ("fn", "item"):
             edits = [e for e in d.get("edits", []) if e["op"] != "sig_adds_return"]
             reqs.append({"id": str(k), "file": resolve_file(d["file"]), "path": d["path"], "edits": edits})
@@ -207,6 +219,11 @@ def compose(template_text, unit, canary=None):
     for k, (kind, d) in enumerate(segs):
         if kind == "text":
             emit(d + "\n")
+            continue
+        if kind == "fn" and d.get("stub_of"):
+            out.stubs.append({"id": " :: ".join([d["file"]] + d["path"]), "contract_file": d["stub_of"]})
+            emit("#[verifier::external_body] /*STUB: contract from %s, proved on the real body in its own unit*/\n" % d["stub_of"])
+            emit(d["header"].rstrip() + "\n{ unimplemented!() }\n")
             continue
         r = res[str(k)]
         where = f"{unit}:{d['line']} {d['file']} :: {' :: '.join(d['path'])}"
